@@ -13,20 +13,26 @@ Inductive event :=
 | EStop (i : Z)                (* stop(): the open frame is emptied *)
 | ETemp (i : Z)
 | EDev (i : Z)
-| EOpen (i : Z).
+| EOpen (i : Z)
+| ESetInput (i : Z) (mode : Z) (ic : incfg)       (* 1 pcap file, 2 sockets, 3 jumbo pcap *)
+| EFrame (i : Z) (f : pframe)                      (* next record of the capture file *)
+| EDgram (i : Z) (port : Z) (d : bytes)            (* datagram sent to a UDP port of the host *)
+| EEof (i : Z).                                    (* end of the capture file (no repeat) *)
 
 Inductive sout :=
 | SOut (i : Z) (o : out)
 | STemp (i : Z) (t : option Z)
 | SDev (i : Z) (info : option (list Z * list Z * list Z * list Z)) (status : option Z)
 | SOpen (i : Z) (buf : Z) (pts : list point)
-| SNoDrv (i : Z).
+| SNoDrv (i : Z)
+| SInErr (i : Z) (code : Z).                       (* reported by the input thread *)
 
 Record world := mk_world {
   w_drvs : list (Z * (drv * bytes));   (* instance -> (driver, first bytes of its pooled packet buffer) *)
-  w_th : throttles; w_now : Z; w_host : Z }.
+  w_th : throttles; w_now : Z; w_host : Z;
+  w_in : list (Z * (Z * incfg * jstate)) }.          (* instance -> input mode, configuration, reassembly state *)
 
-Definition world0 : world := mk_world [] [] 0 0.
+Definition world0 : world := mk_world [] [] 0 0 [].
 
 Fixpoint lookup {A} (l : list (Z * A)) (k : Z) : option A :=
   match l with [] => None | (k', v) :: r => if k =? k' then Some v else lookup r k end.
@@ -41,13 +47,47 @@ Definition overlay2 (stale b : bytes) : bytes :=
   | x :: y :: _ => [x; y]
   end.
 
+(* hand an extracted payload to the driver's decode side *)
+Definition deliver (bl : build) (crc_table : list Z) (w : world) (i : Z) (payload : bytes) : world * list sout :=
+  match lookup (w_drvs w) i with
+  | None => (w, [SNoDrv i])
+  | Some (v, stale) =>
+      let '(v', th, o) := process_packet bl crc_table v (w_th w) (w_now w) (w_host w) payload stale in
+      (mk_world (update (w_drvs w) i (v', overlay2 stale payload)) th (w_now w) (w_host w) (w_in w), map (SOut i) o)
+  end.
+
 Definition step (bl : build) (crc_table : list Z) (w : world) (e : event) : world * list sout :=
   match e with
+  | ESetInput i mode ic =>
+      (mk_world (w_drvs w) (w_th w) (w_now w) (w_host w) (update (w_in w) i (mode, ic, None)), [])
+  | EFrame i f =>
+      match lookup (w_in w) i with
+      | None => (w, [SNoDrv i])
+      | Some (mode, ic, js) =>
+          if mode =? 3 then
+            let '(js', o) := jumbo_extract ic js f in
+            let w1 := mk_world (w_drvs w) (w_th w) (w_now w) (w_host w) (update (w_in w) i (mode, ic, js')) in
+            match o with Some p => deliver bl crc_table w1 i p | None => (w1, []) end
+          else
+            match pcap_extract ic f with Some p => deliver bl crc_table w i p | None => (w, []) end
+      end
+  | EDgram i port d =>
+      match lookup (w_in w) i, lookup (w_drvs w) i with
+      | Some (mode, ic, js), Some (v, _) =>
+          if sock_accepts ic port then
+            match sock_extract (i_user ic) (i_tail ic) (raw_buf_len (v_desc v)) d with
+            | Some p => deliver bl crc_table w i p
+            | None => (w, [])
+            end
+          else (w, [])
+      | _, _ => (w, [SNoDrv i])
+      end
+  | EEof i => (w, [SInErr i 2])
   | EInit i d c answers =>
       let '(v, th, o) := init_drv d c answers (1000 * (i + 1)) (w_th w) (w_now w) in
-      (mk_world (update (w_drvs w) i (v, [0; 0])) th (w_now w) (w_host w), map (SOut i) o)
-  | EWall t => (mk_world (w_drvs w) (w_th w) t (w_host w), [])
-  | EHost us => (mk_world (w_drvs w) (w_th w) (w_now w) us, [])
+      (mk_world (update (w_drvs w) i (v, [0; 0])) th (w_now w) (w_host w) (w_in w), map (SOut i) o)
+  | EWall t => (mk_world (w_drvs w) (w_th w) t (w_host w) (w_in w), [])
+  | EHost us => (mk_world (w_drvs w) (w_th w) (w_now w) us (w_in w), [])
   | EPkt i b =>
       match lookup (w_drvs w) i with
       | None => (w, [SNoDrv i])
@@ -57,7 +97,7 @@ Definition step (bl : build) (crc_table : list Z) (w : world) (e : event) : worl
           | None => (w, [])
           | Some payload =>
               let '(v', th, o) := process_packet bl crc_table v (w_th w) (w_now w) (w_host w) payload stale in
-              (mk_world (update (w_drvs w) i (v', overlay2 stale payload)) th (w_now w) (w_host w), map (SOut i) o)
+              (mk_world (update (w_drvs w) i (v', overlay2 stale payload)) th (w_now w) (w_host w) (w_in w), map (SOut i) o)
           end
       end
   | EStop i =>
@@ -65,7 +105,7 @@ Definition step (bl : build) (crc_table : list Z) (w : world) (e : event) : worl
       | None => (w, [SNoDrv i])
       | Some (v, stale) =>
           (mk_world (update (w_drvs w) i (set_open v (v_dec v) (v_open_buf v) [] (v_pkt_seq v) (v_cloud_seq v) (v_answers v) (v_fresh v), stale))
-                    (w_th w) (w_now w) (w_host w), [])
+                    (w_th w) (w_now w) (w_host w) (w_in w), [])
       end
   | ETemp i =>
       match lookup (w_drvs w) i with
